@@ -137,12 +137,14 @@ def recoverLine (s : St) (lost : String) : String :=
 /-- run `Server.Shutdown` of node `m`: the actions of `Node.shutdownActions` in order, the
 handlers draining right after the cancel; returns the final state and whether the upstream
 server was already shut down when the left marker was written -/
-def runShutdown (m : Node.St) (reached : List String) : Node.St × Bool :=
-  (Node.shutdownActions reached).foldl (fun (acc : Node.St × Bool) a =>
-    let closedAtLeave := if a = .leaveLocal then acc.1.srv.cancelled else acc.2
+def runShutdown (m : Node.St) (reached : List String) : Node.St × Bool × Bool :=
+  (Node.shutdownActions reached).foldl (fun (acc : Node.St × Bool × Bool) a =>
+    let closedAtLeave := if a = .leaveLocal then acc.1.srv.cancelled else acc.2.1
+    -- when the proxy starts draining: have the upstreams been sent away already?
+    let withdrawnAtProxy := if a = .proxyShutdown then acc.1.srv.cancelled else acc.2.2
     let n := acc.1.act a
     let n := if a = .upstreamShutdown then n.drain else n
-    (n, closedAtLeave)) (m, false)
+    (n, closedAtLeave, withdrawnAtProxy)) (m, false, false)
 
 /-- the error kind `AcceptStreamWithContext` returns for an injected fault and a local action
 (assumed yamux behaviour); `none` = no error, the call blocks -/
@@ -171,6 +173,35 @@ def decideLine (ctx : Bool) (local_ inject : String) : String :=
 def validLocal (l : String) : Bool := l = "none" || l = "close" || l = "shutdown"
 def validInject (i : String) : Bool := i = "none" || i = "remote-close" || i = "rst" || i = "sess-close"
 
+/-- graceful `Server.Shutdown` of node `i`; `drain` = a slow request is in flight on its proxy
+and the line also says whether the traffic is withdrawn while the proxy drains -/
+def doShutdown (s : St) (i : String) (drain : Bool) : St × String :=
+  match i.toNat? with
+  | some ii =>
+    match getNode s.nodes (nodeId ii) with
+    | some m =>
+      if !m.alive || (alive s.nodes).length < 2 then (s, "bad-op") else
+      let others := (alive s.nodes).filter (fun x => x.id != m.id)
+      let eps := attachedEps m
+      let (st', closedAtLeave, withdrawnAtProxy) := runShutdown m.st (others.map (·.id))
+      let ns := mapNode s.nodes m.id fun x => { x with st := st', alive := false }
+      -- exactly the pushed deltas reach their peers, at once
+      let ns := st'.pushed.foldl (fun ns p => mapNode ns p.1 fun x => receive x p.2) ns
+      let notified := ((alive ns).filter fun x => statusAt x m.id = "left").length
+      -- the rest follow through gossip
+      let ns := match st'.pushed.head? with
+        | some p => ns.map fun x => if x.alive then receive x p.2 else x
+        | none => ns
+      let s' := reattach { s with nodes := ns } eps
+      (s', "ok lost=" ++ m.id ++
+        (if drain then (if withdrawnAtProxy then " drain=withdrawn" else " drain=held") else "") ++
+        " upstream-at-leave=" ++ (if closedAtLeave then "closed" else "open") ++
+        " notified=" ++ (if notified ≥ min others.length Node.maxLeaveNotified then "all"
+          else toString notified ++ "/" ++ toString (min others.length Node.maxLeaveNotified)) ++
+        " " ++ recoverLine s' m.id)
+    | none => (s, "bad-op")
+  | none => (s, "bad-op")
+
 def step (s : St) : List String → St × String
   | ["init", n] =>
     match n.toNat? with
@@ -197,30 +228,8 @@ def step (s : St) : List String → St × String
         (s', "ok total=" ++ total s'.nodes)
       | _, _ => (s, "bad-op")
     | ["req"] => (s, "ok " ++ (reqLine s.nodes s.ls).1)
-    | ["shutdown", i, _] =>
-      match i.toNat? with
-      | some ii =>
-        match getNode s.nodes (nodeId ii) with
-        | some m =>
-          if !m.alive || (alive s.nodes).length < 2 then (s, "bad-op") else
-          let others := (alive s.nodes).filter (fun x => x.id != m.id)
-          let eps := attachedEps m
-          let (st', closedAtLeave) := runShutdown m.st (others.map (·.id))
-          let ns := mapNode s.nodes m.id fun x => { x with st := st', alive := false }
-          -- exactly the pushed deltas reach their peers, at once
-          let ns := st'.pushed.foldl (fun ns p => mapNode ns p.1 fun x => receive x p.2) ns
-          let notified := ((alive ns).filter fun x => statusAt x m.id = "left").length
-          -- the rest follow through gossip
-          let ns := match st'.pushed.head? with
-            | some p => ns.map fun x => if x.alive then receive x p.2 else x
-            | none => ns
-          let s' := reattach { s with nodes := ns } eps
-          (s', "ok lost=" ++ m.id ++ " upstream-at-leave=" ++ (if closedAtLeave then "closed" else "open") ++
-            " notified=" ++ (if notified ≥ min others.length Node.maxLeaveNotified then "all"
-              else toString notified ++ "/" ++ toString (min others.length Node.maxLeaveNotified)) ++
-            " " ++ recoverLine s' m.id)
-        | none => (s, "bad-op")
-      | none => (s, "bad-op")
+    | ["shutdown", i, _] => doShutdown s i false
+    | ["shutdown-inflight", i] => if s.ls.isEmpty then (s, "bad-op") else doShutdown s i true
     | ["kill", i] =>
       match i.toNat? with
       | some ii =>
